@@ -857,6 +857,9 @@ func startRollback(c *Ctx, p *Program) {
 				k, isC := st.Val.(*ssa.Const)
 				return isC && (k.Value == nil || k.Value.String() == "false")
 			}
+			// one obligation per start routine whatever it sets (a routine that commits its state only after a successful
+			// start has nothing to roll back): the instance count does not depend on how many fields are set early
+			c.OK("C17.3", "start failure tested in "+FuncName(fn), p.Pos(start.Pos()), fmt.Sprintf("the error of starting the helper is tested; %d guarded field(s) are set before the start and examined one by one", len(set)))
 			for fv := range set {
 				avoid := map[ssa.Instruction]bool{}
 				for _, b := range fn.Blocks {
